@@ -20,6 +20,7 @@ import (
 	"os"
 	"sort"
 	"strings"
+	"sync"
 	"time"
 
 	"verifharness/proc"
@@ -333,12 +334,23 @@ func main() {
 			f = mv.PtOwner[mv.Peers[0]] // first slave peer: becomes master when the master dies
 		}
 		logf("follower under test: store%d", f+1)
-		nFill := 400
-		for i := 0; i < nFill; i++ {
-			if !c.write(pt("fill", i, int64(i))) {
-				return
-			}
+		// 16 concurrent writers, one point per request = one raft entry each
+		nFill := 30000
+		if v := os.Getenv("C05_FILL"); v != "" {
+			fmt.Sscan(v, &nFill)
 		}
+		var wg sync.WaitGroup
+		for g := 0; g < 16; g++ {
+			wg.Add(1)
+			go func(g int) {
+				defer wg.Done()
+				for i := g; i < nFill; i += 16 {
+					c.Front.Write(db, pt(fmt.Sprintf("fill%d", g), i, int64(i)), nil)
+				}
+			}(g)
+		}
+		wg.Wait()
+		logf("%d filler entries written", nFill)
 		// keys K0..K9 = 1 (old value), last entries before the kill
 		for i := 0; i < 10; i++ {
 			c.write(pt(fmt.Sprintf("K%d", i), 0, 1))
